@@ -327,6 +327,10 @@ def run(run):
                 break
             prev = cur
     run.traces += n_hist
+    # ---- the set-up protocol (spec/ObjProtocol.tla): whatever order the public set-up methods and parameter assignments come in, every
+    #      matrix is the one of the parameter version the model says it was computed from (so the law the rows follow is known)
+    from harness import protocol
+    run.aux["protocol_histories"] = protocol.check(run, ips, rng, 600 if quick else 6000)
     stab = []
     for n, ncol in ((4, 2), (6, 2), (8, 2), (5, 3)) if quick else ((4, 2), (6, 2), (8, 2), (5, 3), (12, 2), (16, 2), (9, 4)):
         rho, res = vk_stability(ips, n, ncol, PARAMS[0])
